@@ -123,6 +123,11 @@ pub struct Net {
     pub last_rx: HashMap<(Addr, Addr), u64>,
     /// last genuine Input packet delivered on a link (for forging)
     pub last_input_delivered: HashMap<(Addr, Addr), WMsg>,
+    /// newest input frame of `from` ever handed to `to` (from the payloads, independent of the sessions' bookkeeping)
+    pub max_input_frame_delivered: HashMap<(Addr, Addr), i32>,
+    /// connection statuses gossiped by `from` as merged from all Input packets handed to `to` (flag ORed, frame max: the
+    /// merge the endpoint itself applies)
+    pub gossip_delivered: HashMap<(Addr, Addr), Vec<(bool, i32)>>,
     /// last genuine packet of any kind delivered on a link
     pub last_any_delivered: HashMap<(Addr, Addr), WMsg>,
     /// sync nonces (me -> to) that are outstanding, and matched round trips (me, from)
@@ -151,6 +156,8 @@ impl Net {
             stats: NetStats::default(),
             last_rx: HashMap::new(),
             last_input_delivered: HashMap::new(),
+            max_input_frame_delivered: HashMap::new(),
+            gossip_delivered: HashMap::new(),
             last_any_delivered: HashMap::new(),
             sent_req: HashMap::new(),
             matched: HashMap::new(),
@@ -355,6 +362,25 @@ impl Net {
                     }
                 }
                 if k == K_INPUT {
+                    if let WBody::Input { st, disc, .. } = &w.body {
+                        if !*disc && !p.forged {
+                            let g = self.gossip_delivered.entry((p.from, me)).or_default();
+                            if g.len() < st.len() {
+                                g.resize(st.len(), (false, -1));
+                            }
+                            for (i, c) in st.iter().enumerate() {
+                                g[i].0 |= c.disconnected;
+                                g[i].1 = g[i].1.max(c.last_frame);
+                            }
+                        }
+                    }
+                    if let WBody::Input { start, bytes, .. } = &w.body {
+                        let n = ref_frame_lens(bytes).map(|v| v.len() as i32).unwrap_or(0);
+                        if n > 0 && *start >= 0 {
+                            let e = self.max_input_frame_delivered.entry((p.from, me)).or_insert(-1);
+                            *e = (*e).max(*start + n - 1);
+                        }
+                    }
                     self.last_input_delivered.insert((p.from, me), w.clone());
                 }
                 if k == K_CHK {
